@@ -402,9 +402,10 @@ def check_bound_views(ctx, vecs, use_model=True):
         if use_model:
             # model: griffe_bound / cpython_bound on the unbound list; static methods are not bound
             mg, mc = mo
-            if how == "static":
-                exp_g = exp_c = ["ok", unb_c["iter"]]
-                mg = mc = ["ok", unb_c["iter"]] if mg is not None else mg
+            if how == "static":          # a static method is not bound: nothing dropped on either side, the model rule is not consulted
+                mg, mc = exp_g, exp_c = ["ok", unb_c["iter"]], ["ok", unb_c["iter"]]
+                if gview[0] == "ok" and gview[1]["iter"] != unb_g["iter"]:
+                    ctx.tie_failure("harness", "static method view changed the container", {"before": unb_g["iter"], "after": gview[1]["iter"]}, {"source": src})
             else:
                 exp_g = gview if gview[0] != "ok" else ["ok", gview[1]["iter"]]
                 exp_c = cview if cview[0] != "ok" else ["ok", cview[1]["iter"]]
@@ -607,8 +608,8 @@ def container_cases(ctx, n):
     return out
 
 
-def check_container(ctx, n, use_model=True):
-    cases = container_cases(ctx, n)
+def check_container(ctx, n, use_model=True, cases=None):
+    cases = cases if cases is not None else container_cases(ctx, n)
     if use_model:
         m_impl = ctx.model([["ops", init, ops] for _, init, _, ops in cases])
         m_spec = ctx.model([["ops-spec", init, ops] for _, init, _, ops in cases])
@@ -653,14 +654,15 @@ def check_container(ctx, n, use_model=True):
 # bodies: overloads, properties, accessors, redefinitions
 # =====================================================================================================================
 NAMES = ["f", "g", "x"]
-PRELUDE = ["from typing import overload", "import typing, functools", "from functools import cached_property", "from abc import abstractmethod",
+PRELUDE = ["from typing import overload", "import typing, functools", "import typing as t; from typing_extensions import overload as ovx", "from functools import cached_property", "from abc import abstractmethod",
            "from contextlib import nullcontext", "def other(f): return f", "FLAG_T = True", "FLAG_F = False"]
 # spelled decorator -> callable path as Griffe resolves it (the generated source imports exactly these names)
-DECO_PATHS = {"overload": "typing.overload", "typing.overload": "typing.overload", "property": "property",
+DECO_PATHS = {"overload": "typing.overload", "typing.overload": "typing.overload", "t.overload": "typing.overload",
+              "ovx": "typing_extensions.overload", "property": "property",
               "functools.cached_property": "functools.cached_property", "cached_property": "functools.cached_property",
               "other": "m.other", "staticmethod": "staticmethod", "classmethod": "classmethod", "abstractmethod": "abc.abstractmethod",
               "functools.cache": "functools.cache"}
-ROLE_OVERLOAD = ("overload", "typing.overload")
+ROLE_OVERLOAD = ("overload", "overload", "typing.overload", "typing.overload", "t.overload", "ovx")
 ROLE_PROPERTY = ("property", "functools.cached_property", "cached_property")
 
 
@@ -716,6 +718,11 @@ def random_stmts(rng, n, scope, depth=0):
             decos.append(rng.choice(["abstractmethod", "staticmethod", "classmethod"] if scope == "class" else ["other"]))
         if any(deco_role(d, name) for d in decos):
             decos = ["other" if d == "functools.cache" else d for d in decos]
+            inner = ("abstractmethod", "staticmethod", "classmethod")
+            wrappers = [d for d in decos if d in inner]
+            # `@classmethod @abstractmethod` is the only order CPython accepts; one of static/class at most
+            wrappers = [d for d in wrappers if d != "abstractmethod"][:1] + [d for d in wrappers if d == "abstractmethod"][:1]
+            decos = [d for d in decos if d not in inner] + wrappers
         out.append(("def", name, decos, rng.random() < 0.15))
     return out
 
@@ -1089,11 +1096,11 @@ def flat_defs(stmts):
             yield from flat_defs(st[2])
 
 
-def check_bodies(ctx, n_random, n_idiom, n_function, use_model=True):
-    cases = body_cases(ctx, n_random, n_idiom, n_function)
+def check_bodies(ctx, n_random, n_idiom, n_function, use_model=True, cases=None):
+    cases = cases if cases is not None else body_cases(ctx, n_random, n_idiom, n_function)
     rendered = [render_body(st, sc) for _, sc, st in cases]
     if use_model:
-        m_scope = ctx.model([["items", 0 if c[1] == "function" else 1, model_items(items, c[1])] for c, (src, items) in zip(cases, rendered)])
+        m_scope = ctx.model([["items", c[1], model_items(items, c[1])] for c, (src, items) in zip(cases, rendered)])
         m_cpy = ctx.model([["cpy", model_items(items, c[1], only_live=True)] for c, (src, items) in zip(cases, rendered)])
     else:
         m_scope = m_cpy = [None] * len(cases)
@@ -1162,7 +1169,7 @@ def check_bodies(ctx, n_random, n_idiom, n_function, use_model=True):
             elif mcn != orc:
                 ctx.tie_failure("oracle", "cpy_exec(model) vs exec + typing.get_overloads + property objects", {"model": mcn, "cpython": orc}, {"source": src})
         if orc[0] != "ok":
-            if stream == "idiom":
+            if stream in ("idiom", "corpus"):
                 ctx.tie_failure("harness", "idiomatic body does not execute", {"cpython": orc}, {"source": src})
             continue
         if not all(supported_def(it[2], it[3]) for it in items if it[0] == "def"):
@@ -1178,7 +1185,34 @@ def check_bodies(ctx, n_random, n_idiom, n_function, use_model=True):
 
 
 # =====================================================================================================================
+def _tuplify(st):
+    if st[0] in ("def", "bind"):
+        return tuple(st)
+    return (st[0], *[[_tuplify(x) for x in part] for part in st[1:]])
+
+
+def check_corpus(ctx, use_model=True):
+    """corpus/C02/classic.json: fixed inputs replayed before anything random."""
+    import json
+    from harness.common.framework import VERIF
+    path = VERIF / "corpus" / "C02" / "classic.json"
+    if not path.exists():
+        return False
+    data = json.loads(path.read_text())
+    if check_signatures(ctx, [tuple(v) for v in data["signature_vectors"]], "corpus", use_model):
+        return True
+    if check_bound_views(ctx, [tuple(v) for v in data["bound_vectors"]] * 6, use_model):     # x6: every how / by-name / annotation combination
+        return True
+    cases = [("corpus", b["scope"], [_tuplify(st) for st in b["stmts"]]) for b in data["bodies"]]
+    if check_bodies(ctx, 0, 0, 0, use_model, cases=cases):
+        return True
+    import griffe
+    cont = [("corpus", c["init"], griffe.Parameters(*[make_griffe_param(p) for p in c["init"]]), c["ops"]) for c in data["container"]]
+    return check_container(ctx, 0, use_model, cases=cont)
+
+
 def explore(ctx):
+    check_corpus(ctx)
     if ctx.quick:
         small = list(vectors(2))
         extra = [v for v in vectors(3) if max(v[0], v[1], v[3]) == 3]
@@ -1200,7 +1234,7 @@ def explore(ctx):
             sample.append(["ops", init, ops[:25]])
         for stream, scope, stmts in body_cases(ctx, 6, 6, 2):
             src, items = render_body(stmts, scope)
-            sample.append(["items", 0 if scope == "function" else 1, model_items(items, scope)])
+            sample.append(["items", scope, model_items(items, scope)])
             sample.append(["cpy", model_items(items, scope, only_live=True)])
         ctx.cross_check_extraction(sample)
 
@@ -1208,6 +1242,8 @@ def explore(ctx):
 def search(ctx):
     """A tie broke and no direct failure was seen yet: evaluate the property on the implementation over a wider space
     (implementation against CPython / the abstract list only; the model is not consulted)."""
+    if check_corpus(ctx, use_model=False):
+        return
     if check_signatures(ctx, list(vectors(3)), "search", use_model=False):
         return
     if check_bodies(ctx, 2000, 3000, 0, use_model=False):
